@@ -52,4 +52,64 @@ PROPS = {
         "assumptions": ["SSE2 intrinsic semantics as modelled in Pdb/Model/IndexPage.lean (validated against the hardware by the runs)"],
         "trusted": ["hook index.rs verif_find_entries (cfg pdb_verif)"],
     },
+    "C02": {
+        "level_text": ("Lean theorems C02_recover_prefix / C02_crash_during_recovery / C02_continues: for every reachable state of the "
+                       "logical pipeline model (any history incl. earlier crashes), every number j of writes of the record being enacted "
+                       "that reached the tables and every number n >= flushed of log records that survived, recovery (replay of absolute "
+                       "after-images) yields exactly the specification of a prefix of the committed transactions containing everything "
+                       "synced, the invariant holds again, and replay absorbs any partially replayed state. Tied to the code by crash "
+                       "images of the real directory (step boundaries, cut unsynced log tails) reopened with the real code; the recovered "
+                       "prefix must be one the model allows."),
+        "level_note": ("Trusted: Lean kernel; P1 abstracts records to logical after-images (physical record layout, index/value tables "
+                       "tied by correspondence only); crash points inside a single file operation are represented by (j, n) in the model "
+                       "and sampled at step boundaries + log-tail cuts on the implementation; page-granular power loss is C12; damaged "
+                       "logs are C13."),
+        "lean": ["Pdb.Props.C02"],
+        "harness": [{"cmd": "p1", "quick": 250, "thorough": 15000}],
+        "rule": P1_RULE,
+        "assumptions": [A_HASH, A_COMPRESS, P2_GAP, "crash instants on the implementation: step boundaries of the stepping API with the unsynced log tail cut at a seeded length"],
+    },
+    "C03": {
+        "level_text": ("Lean theorems C03_drop_persists (for every reachable state, drop = the drain sequence of kill_logs, then open: the "
+                       "tables hold the specification of ALL accepted transactions, overlays and queues are empty, reads return it) and "
+                       "C03_synced_survive (after any crash the recovered prefix contains every transaction whose record was flushed). "
+                       "Tied to the code by drop/reopen and crash images at arbitrary pipeline positions of generated histories."),
+        "level_note": ("Trusted: Lean kernel; P1 abstraction (see C02); the real drop may leave flushed log files to be replayed by the next "
+                       "open, which the model folds into one step; worker-thread shutdown is C15."),
+        "lean": ["Pdb.Props.C03"],
+        "harness": [{"cmd": "p1", "quick": 250, "thorough": 15000}],
+        "rule": P1_RULE,
+        "assumptions": [A_HASH, A_COMPRESS, P2_GAP],
+    },
+    "C07": {
+        "level_text": ("Lean theorems C07_positive_readable (count > 0 implies readable with its value at every pipeline stage, after "
+                       "reopens and crashes), C07_logged_iff (empty queue: readable iff count > 0), C07_count_is_math_count (below the "
+                       "2^32-1 saturation bound the stored count equals the property's own counter), C07_saturates, C07_table_counts; "
+                       "proved from the pipeline invariant under the explicit preimage contract. Tied to the code by generated "
+                       "set/reference/dereference histories on hash and btree rc columns with crashes and reopens."),
+        "level_note": ("Trusted: Lean kernel; P1 abstraction; the preimage contract (value is a function of the key) is a hypothesis; "
+                       "value iteration is compared on the implementation only (iter_column_while)."),
+        "lean": ["Pdb.Props.C07"],
+        "harness": [{"cmd": "p1", "quick": 250, "thorough": 15000}],
+        "rule": P1_RULE,
+        "assumptions": [A_HASH, A_COMPRESS, P2_GAP, "preimage contract: every Set on a preimage / rc column carries valueOf(key)"],
+    },
+    "C08": {
+        "level_text": ("Lean theorems C08_rejected_noop (a commit that returns an error returns the state unchanged), C08_no_trace "
+                       "(deleting all rejected commits from any history - with any further commits, pipeline progress, restarts, crashes - "
+                       "yields the same state), C08_invalid_rejected, C08_validation_matrix / C08_validateTx (model of "
+                       "DbInner::validate_change: exactly the listed column/operation combinations are rejected, wherever they sit). "
+                       "Tied to the code by transactions with an invalid operation at a random position over columns of every kind, "
+                       "observing the full public state before/after, after drain and after reopen, and by the exhaustive single-operation "
+                       "matrix compared with the model."),
+        "level_note": ("Trusted: Lean kernel; the validation model is hand-written (tied by the exhaustive matrix run); I/O errors after "
+                       "validation (claiming slots, reading a tree root) are outside the property's list and the model."),
+        "lean": ["Pdb.Props.C08"],
+        "harness": [{"cmd": "c08", "quick": 60, "thorough": 3000}, {"cmd": "p1", "quick": 100, "thorough": 5000}],
+        "rule": ("c08: 5 columns (plain, rc, btree, multitree rc, multitree append-only), 10..30 transactions of 1..5 valid operations, "
+                 "half of them with one invalid operation inserted at a random position (first / middle / last measured), plus the "
+                 "exhaustive column-kind x operation-kind matrix incl. fan-out 255/256 and missing roots; p1: histories with ~3% invalid "
+                 "references; distinct by SHA-1 of the op list; non-trivial = at least one transaction was rejected"),
+        "assumptions": [A_HASH, P2_GAP],
+    },
 }
